@@ -149,7 +149,9 @@ func (c *Ctx) rulesC01(a *coreAnchors, la *LockAnalysis) {
 		}
 		why, ok := clockWriterTable[fk]
 		if !ok {
-			why, ok = clockWriterTable[c.hostKey(w.Fn)]
+			if hk, found := c.hostKeyIn(w.Fn, func(k string) bool { _, ok := clockWriterTable[k]; return ok }); found {
+				why, ok = clockWriterTable[hk], true
+			}
 		}
 		c.check(ok, "C01.w", key, w.Instr.Pos(), "writer of Machine.clock outside setActiveStates: "+fk+" "+why)
 	}
@@ -237,7 +239,7 @@ func (c *Ctx) rulesC01(a *coreAnchors, la *LockAnalysis) {
 			c.ok("C01.a", key, w.Instr.Pos(), "tabled writer: "+activeWriterTable[fk])
 			continue
 		}
-		if hk := c.hostKey(w.Fn); hk != fk {
+		if hk, found := c.hostKeyIn(w.Fn, func(k string) bool { _, ok := activeWriterTable[k]; return ok }); found && hk != fk {
 			if _, ok := activeWriterTable[hk]; ok {
 				c.ok("C01.a", key, w.Instr.Pos(), "helper of a tabled writer: "+activeWriterTable[hk])
 				continue
@@ -473,7 +475,8 @@ func (c *Ctx) rulesC03(a *coreAnchors, la *LockAnalysis) {
 		for _, w := range c.writesOfField(fld) {
 			fk := funcKey(topFunc(w.Fn))
 			cnt[fk]++
-			c.check(allowedQ[fk] || allowedQ[c.hostKey(w.Fn)], "C03.chk", fmt.Sprintf("%s writes %s%s", fk, fld.Name(), nth(cnt[fk]-1)), w.Instr.Pos(), "queue ticks may only be written by queueMutation/processQueue/the deadline flush in processHandlers")
+			_, hosted := c.hostKeyIn(w.Fn, func(k string) bool { return allowedQ[k] })
+			c.check(allowedQ[fk] || hosted, "C03.chk", fmt.Sprintf("%s writes %s%s", fk, fld.Name(), nth(cnt[fk]-1)), w.Instr.Pos(), "queue ticks may only be written by queueMutation/processQueue/the deadline flush in processHandlers")
 		}
 	}
 	// the queueTick increment in processQueue is conditional on QueueTick > 0
